@@ -25,6 +25,8 @@ func init() {
 				simrt.Begin(simrt.Config{Seed: 1, PoolPolicy: simrt.PoolFresh})
 				e := twig.New()
 				e.RegisterString("part", sc.Part)
+				e.RegisterString("lib18", c18Lib)
+				installGlobals(e)
 				var o Obs
 				if err := e.RegisterString("t", src); err != nil {
 					o = Obs{Class: "error", Err: "register: " + err.Error()}
